@@ -95,6 +95,23 @@ def stream_disp_transfer(R, tier, seed):
             e3J = "re (t5 %s 3 %s %s 3 (nodes_J %s w)) %s" % (nat(ny), nat(nx), nat(ny), nat(nx - 1), arr(J3[("nodes", "mesh")]))
             cid = cc.add(pre + "[%s; %s]" % (e3, e3J))
             meta.append((cid, S3, ["nodes", "J_mesh"], dict(desc, comp="ComputeNodes")))
+            # wing box: the nodes sit at the shear-centre chord fraction computed from the corner points of the section data,
+            # with the x stations of the UPPER surface (as LoadTransfer and WingboxGeometry do); second variant: airfoil data
+            # whose lower-surface stations differ from the upper ones (coordinates cropped from an airfoil file)
+            for cropped in (False, True):
+                extra = {}
+                if cropped:
+                    xl_ = np.real(gen.WB_LOWER_X) * 1.04 + 0.036
+                    extra = {"data_x_lower": xl_.astype(complex)}
+                wb = gen.wingbox_surface(mesh, symmetry=(kind != "full"), **extra)
+                o4, J4, _ = core.run_comp(ComputeNodes(surface=wb), {"mesh": mesh})
+                xu, yu, yl = np.real(wb["data_x_upper"]), np.real(wb["data_y_upper"]), np.real(wb["data_y_lower"])
+                pre = "let mesh := a3 %s 3 %s in let w := wingbox_fem_origin %s %s %s %s %s %s in " % (
+                    nat(ny), arr(mesh), fl(xu[0]), fl(yu[0]), fl(yl[0]), fl(xu[-1]), fl(yu[-1]), fl(yl[-1]))
+                e4 = "re (t2 %s 3 (nodes %s w mesh)) %s" % (nat(ny), nat(nx - 1), arr(o4["nodes"]))
+                e4J = "re (t5 %s 3 %s %s 3 (nodes_J %s w)) %s" % (nat(ny), nat(nx), nat(ny), nat(nx - 1), arr(J4[("nodes", "mesh")]))
+                cid = cc.add(pre + "[%s; %s]" % (e4, e4J))
+                meta.append((cid, S3, ["nodes", "J_mesh"], dict(desc, comp="ComputeNodes(wingbox)", lower_stations_differ=cropped)))
             # --- displacement transfer with independent random inputs
             Tm = rng.normal(size=(ny, 3, 3))
             nds = rng.normal(size=(ny, 3))
